@@ -25,11 +25,11 @@ type tok struct {
 	tag  string // names the argument-generation corner this token comes from (used in violation keys)
 }
 
-func V(s string) tok     { return tok{s: s, kind: 'V'} }
-func N(i int64) tok      { return tok{s: strconv.FormatInt(i, 10), kind: 'N'} }
-func U(u uint64) tok     { return tok{s: strconv.FormatUint(u, 10), kind: 'N'} }
-func F(f float64) tok    { return tok{s: strconv.FormatFloat(f, 'f', -1, 64), kind: 'N'} } // go-redis appendArg(float64)
-func K(s string) tok     { return tok{s: s, kind: 'K'} }
+func V(s string) tok  { return tok{s: s, kind: 'V'} }
+func N(i int64) tok   { return tok{s: strconv.FormatInt(i, 10), kind: 'N'} }
+func U(u uint64) tok  { return tok{s: strconv.FormatUint(u, 10), kind: 'N'} }
+func F(f float64) tok { return tok{s: strconv.FormatFloat(f, 'f', -1, 64), kind: 'N'} } // go-redis appendArg(float64)
+func K(s string) tok  { return tok{s: s, kind: 'K'} }
 func Vs(ss []string) []tok {
 	out := make([]tok, len(ss))
 	for i, s := range ss {
@@ -124,8 +124,8 @@ func (g *gen) cur(c uint64) tok {
 	return U(c)
 }
 
-func (g *gen) tok(p string) string { g.n++; return fmt.Sprintf("%s%d", p, g.n) }
-func (g *gen) key() string         { return g.tok("key:") }
+func (g *gen) tok(p string) string     { g.n++; return fmt.Sprintf("%s%d", p, g.n) }
+func (g *gen) key() string             { return g.tok("key:") }
 func (g *gen) tagf(f string, a ...any) { g.shape = append(g.shape, fmt.Sprintf(f, a...)) }
 func (g *gen) keys(min, max int) []string {
 	n := min + g.r.Intn(max-min+1)
@@ -143,7 +143,7 @@ func (g *gen) strs(p string, min, max int) []string {
 	}
 	return out
 }
-func (g *gen) flip() bool { return g.r.Intn(2) == 0 }
+func (g *gen) flip() bool               { return g.r.Intn(2) == 0 }
 func (g *gen) pick(ss ...string) string { return ss[g.r.Intn(len(ss))] }
 
 // i64: small, zero, negative and large integers
